@@ -189,6 +189,8 @@ def translate_site(src_root, site):
                     return 2 if kw.get("deep") == "True" else 1
                 if f in ("dict", "list", "set") and len(e.args) == 1 and not e.keywords: return 1
                 if f.endswith(".copy") and not e.args: return 1
+            if isinstance(e, ast.Dict) and not e.keys: return 1          # `{}`: a new, empty container
+            if isinstance(e, ast.BinOp) and isinstance(e.op, ast.BitOr): return 1          # `a | b` of two dictionaries builds a new one
             if isinstance(e, ast.DictComp) and isinstance(e.value, ast.Call) and ast.unparse(e.value.func) in ("dict", "list") : return 2
             raise Unsupported(f"copy expression `{u[:60]}`")
         where = site["where"]
@@ -200,6 +202,33 @@ def translate_site(src_root, site):
             if site.get("pick") is not None: hits = [h for h in hits if site["pick"] in ast.unparse(h)]
         if len(hits) != 1: raise Unsupported(f"{len(hits)} places match `{where}` in {site['fn']} (expected one)")
         body = f"  {depth(hits[0])}"; rty = "Nat"
+    elif mode == "aliasmut":
+        # a constructor that starts from `self.__dict__.update(source.__dict__)` shares every attribute object with `source` until it
+        # rebinds the attribute.  Counted: the places that change such a shared object in place — a mutating method call or a
+        # subscript store / delete / augmented assignment on `source.<attr>` anywhere, or on `self.<attr>` before the first `self.<attr> = …`.
+        osrc = site["source"]
+        if not any(isinstance(n, ast.Call) and ast.unparse(n.func) == "self.__dict__.update" and [ast.unparse(a) for a in n.args] == [osrc + ".__dict__"] for n in ast.walk(fn)):
+            raise Unsupported(f"no `self.__dict__.update({osrc}.__dict__)` in {site['fn']}")
+        MUT = {"pop", "popitem", "update", "clear", "setdefault", "sort", "fill", "resize", "put", "append", "extend", "insert", "remove", "reverse", "itemset", "partition", "setfield", "__setitem__", "__delitem__"}
+        rebound = {}
+        for n in ast.walk(fn):
+            if isinstance(n, ast.Assign):
+                for t in n.targets:
+                    if isinstance(t, ast.Attribute) and ast.unparse(t.value) == "self": rebound[t.attr] = min(rebound.get(t.attr, 10**9), n.lineno)
+        def shared(e, line):
+            """is `e` (the object being changed) an attribute object shared with the source at this line?"""
+            while isinstance(e, ast.Subscript): e = e.value
+            if not isinstance(e, ast.Attribute) or e.attr == "__dict__": return False
+            base = ast.unparse(e.value)
+            return base == osrc or (base == "self" and line <= rebound.get(e.attr, 10**9))
+        count = 0
+        for n in ast.walk(fn):
+            if isinstance(n, ast.Call) and isinstance(n.func, ast.Attribute) and n.func.attr in MUT and shared(n.func.value, n.lineno): count += 1
+            tg = n.targets if isinstance(n, (ast.Assign, ast.Delete)) else [n.target] if isinstance(n, ast.AugAssign) else []
+            for t in tg:
+                if isinstance(t, ast.Subscript) and shared(t.value, n.lineno): count += 1
+                if isinstance(n, ast.AugAssign) and isinstance(t, ast.Attribute) and shared(t, n.lineno): count += 1          # `self.x |= …` changes a dict / array in place
+        body = f"  {count}"; rty = "Nat"
     elif mode == "order":
         # in which order a collection is written into the configuration document: 1 a canonical (sorted) order, 0 the order the
         # container happens to iterate in (insertion order of a dict, hash order of a set)
@@ -340,6 +369,9 @@ SITES["C14"] = [
     dict(file="pipeline/builder.py", cls="PipelineBuilder", fn="build_config", mode="copy", where="edges", lean="buildConfigEdgesCopy", atoms={}),
     dict(file="data/builder.py", cls="DatasetBuilder", fn="__init__", mode="copy", where="self.schema", pick="name.schema", lean="builderFromDatasetSchemaCopy", atoms={}),
     dict(file="data/builder.py", cls="DatasetBuilder", fn="build_container", mode="copy", where="return:DataContainer", lean="buildContainerSchemaCopy", atoms={}),
+    dict(file="data/items.py", cls="ItemList", fn="__init__", mode="copy", where="eff_fields", pick="source._fields", lean="itemListEffFieldsCopy", atoms={}),
+    dict(file="data/items.py", cls="ItemList", fn="__init__", mode="copy", where="self._fields", lean="itemListFieldsCopy", atoms={}),
+    dict(file="data/items.py", cls="ItemList", fn="__init__", mode="aliasmut", source="source", lean="itemListSharedMutations", atoms={}),
 ]
 
 SITES["C13"] = [
